@@ -244,8 +244,9 @@ def main(argv):
     )
     ev = dict(property_id=pid, tier=tier if tier in ('quick', 'thorough') else 'quick', seed=seed, level=getattr(mod, 'LEVEL', 'model_checking'),
               coverage=cov, assumptions=meta.get('assumptions', []), wall_s=round(wall, 2), violations=len(violations))
-    os.makedirs(os.path.join(HERE, 'evidence'), exist_ok=True)
-    with open(os.path.join(HERE, 'evidence', f'{pid}.json'), 'w') as f:
+    evdir = os.environ.get('VERIF_EVIDENCE_DIR', os.path.join(HERE, 'evidence'))      # seed sweeps on a scratch copy write elsewhere
+    os.makedirs(evdir, exist_ok=True)
+    with open(os.path.join(evdir, f'{pid}.json'), 'w') as f:
         json.dump(ev, f, indent=1, default=str)
     status = 'VIOLATED' if violations else ('INCONCLUSIVE' if inconclusive else 'HELD')
     print(f"{pid} {tier}: {status}  obligations={agg['obligations']} discharged={agg['discharged']} paths={agg['paths']} queries={agg['queries']} "
